@@ -270,14 +270,33 @@ int32_t tls13FindSessionPsk(ssl_t *ssl,
 
         if (idLen >= 16 + 12 + 16)
         {
+            psSessionTicketKeys_t keyCopy;
+            psBool_t found = PS_FALSE;
+            int32_t rc;
+
+            /* The key list is shared between sessions (threads): take a
+               private copy of the matching key under the lock and decrypt
+               with the copy (the decryption looks up the imported PSK
+               through this function again). */
+            matrixSslLockSessionTicketKeys();
             key = ssl->keys->sessTickets;
             while (key)
             {
                 if (!Memcmp(id, key->name, 16))
                 {
-                    return tls13DecryptTicket(ssl, key, id, idLen, pskOut);
+                    Memcpy(&keyCopy, key, sizeof(keyCopy));
+                    found = PS_TRUE;
+                    break;
                 }
                 key = key->next;
+            }
+            matrixSslUnlockSessionTicketKeys();
+            if (found)
+            {
+                keyCopy.next = NULL;
+                rc = tls13DecryptTicket(ssl, &keyCopy, id, idLen, pskOut);
+                memzero_s(&keyCopy, sizeof(keyCopy));
+                return rc;
             }
         }
 #  endif
